@@ -258,6 +258,7 @@ def main():
         results = list(ex.map(lambda t: run_child(work, t[0], t[1], t[2], tier, seed), tasks))
 
     evaluations = 0
+    distinct_more = 0  # classes beyond the capped lists: only the largest child is counted (conservative)
     distinct = set()
     samples = []
     obs = {}
@@ -278,6 +279,7 @@ def main():
         if res is not None and r["rc"] in (0, 3):
             evaluations += res.get("evaluations", 0)
             distinct.update(res.get("distinct") or [])
+            distinct_more = max(distinct_more, res.get("distinct_more", 0))
             for s in (res.get("samples") or []):
                 if len(samples) < 8:
                     samples.append(s)
@@ -362,7 +364,8 @@ def main():
         print("  detail: %s" % v["detail"][:500])
 
     wall = time.time() - t0
-    cov = dict(evaluations=int(evaluations), distinct_nontrivial=len(distinct), rule=" | ".join(rules) or "n/a",
+    ndistinct = len(distinct) + int(distinct_more)
+    cov = dict(evaluations=int(evaluations), distinct_nontrivial=ndistinct, rule=" | ".join(rules) or "n/a",
                samples=samples, observations=obs, children=len(results), inconclusive=int(inconclusive),
                known_findings_seen=sorted(listed.keys()), unlisted_violation_signatures=sorted(seen_sig),
                race_report_classes=sorted(race_classes.keys()))
@@ -383,15 +386,15 @@ def main():
         shutil.rmtree(work, ignore_errors=True)
 
     print("%s %s seed=%d: %d evaluations, %d distinct non-trivial, %d children, %d inconclusive, %d race reports, %.1fs" %
-          (pid, tier, seed, evaluations, len(distinct), len(results), inconclusive, total_races, wall))
+          (pid, tier, seed, evaluations, ndistinct, len(results), inconclusive, total_races, wall))
     if nviol:
         return 1
     if broken:
         for b in broken:
             print("BROKEN/INCONCLUSIVE:", b)
         return 2
-    if evaluations == 0 or len(distinct) < 2:
-        print("BROKEN: no observations (evaluations=%d distinct=%d)" % (evaluations, len(distinct)))
+    if evaluations == 0 or ndistinct < 2:
+        print("BROKEN: no observations (evaluations=%d distinct=%d)" % (evaluations, ndistinct))
         return 2
     print("HELD property=%s on what was observed" % pid)
     return 0
